@@ -148,6 +148,11 @@ func resolveIRI(ectx evaluationContext, prefixes *iri.PrefixManager, value strin
 
 	valueSplit := strings.SplitN(value, ":", 2)
 
+	if len(valueSplit) == 1 && isSafeCurie && allowSafeCurie {
+		// [rdfa-core // 7.4] the content of a SafeCURIE which is not a CURIE is ignored
+		return nil
+	}
+
 	if len(valueSplit) == 1 {
 		// spec does not seem to be explicit about resolution order between term vs relative IRI
 
@@ -195,6 +200,11 @@ func resolveIRI(ectx evaluationContext, prefixes *iri.PrefixManager, value strin
 	})
 	if ok {
 		return rdf.IRI(expanded)
+	}
+
+	// [rdfa-core // 7.4] the content of a SafeCURIE which is not a CURIE is ignored
+	if isSafeCurie && allowSafeCurie && len(valueSplit[0]) > 0 {
+		return nil
 	}
 
 	// If the prefix is empty and not found in prefix mappings, use default vocabulary
